@@ -196,6 +196,9 @@ func (b *GRPCWebSocketBridge) ServeHTTP(unwrappedRW http.ResponseWriter, r *http
 	stream.sendTrailer(status.Convert(err))
 }
 
+// maxRecvMessageSize is the max size of a single gRPC-Web request message, equal to the default limit of gRPC servers.
+const maxRecvMessageSize = 1 << 22
+
 type gRPCWebStream struct {
 	rw      http.ResponseWriter
 	r       *http.Request
@@ -238,7 +241,14 @@ func (s *gRPCWebStream) recv(msg proto.Message) error {
 		return nil
 	}
 
-	data := make([]byte, min(length, 1<<22)) // 4 MB is the max message size used by gRPC
+	// 4 MB is the max message size used by gRPC. Reading only a part of a larger message would hand a corrupted
+	// message to the target and leave the rest of it in the body to be parsed as the next header,
+	// so such messages are rejected like gRPC-Go does.
+	if length > maxRecvMessageSize {
+		return status.Errorf(codes.ResourceExhausted, "grpcbridge: received message larger than max (%d vs. %d)", length, maxRecvMessageSize)
+	}
+
+	data := make([]byte, length)
 
 	if _, err := io.ReadFull(s.r.Body, data); err != nil {
 		return status.Errorf(codes.Unavailable, "failed to read length-prefixed message body: %s", err)
